@@ -116,6 +116,40 @@ class ImmAutoWorld(AutoWorld):
         return imm_step(self, super().step, sim, events)
 
 
+from .w_seek import SeekWorld
+
+
+class ImmSeekWorld(SeekWorld):
+    def __init__(self, **kw):
+        super().__init__(**kw)
+        self.name = self.name + "/imm"
+
+    def step(self, sim, events):
+        return imm_step(self, super().step, sim, events)
+
+
+from .w_fifo import FifoWorld
+
+
+class ImmFifoWorld(FifoWorld):
+    def __init__(self, **kw):
+        super().__init__(**kw)
+        self.name = self.name + "/imm"
+
+    def step(self, sim, events):
+        return imm_step(self, super().step, sim, events)
+
+
+def make_fifo(**kw):
+    if "plugs" in kw:
+        kw["plugs"] = tuple(kw["plugs"])
+    return ImmFifoWorld(**kw)
+
+
+def make_seek(**kw):
+    return ImmSeekWorld(**kw)
+
+
 def make_auto(**kw):
     return ImmAutoWorld(**kw)
 
